@@ -213,16 +213,18 @@ fn process_swaps_for_single_pool<C: ContentAddrStore>(
 
         if swap.outputs[0].denom == pool.left() {
             swap.outputs[0].denom = pool.right();
-            swap.outputs[0].value = CoinValue(multiply_frac(
+            swap.outputs[0].value = CoinValue(multiply_ratio(
                 right_withdrawn,
-                Ratio::new(swap.outputs[0].value.0, total_lefts),
+                swap.outputs[0].value.0,
+                total_lefts,
             ))
             .min(MAX_COINVAL);
         } else {
             swap.outputs[0].denom = pool.left();
-            swap.outputs[0].value = CoinValue(multiply_frac(
+            swap.outputs[0].value = CoinValue(multiply_ratio(
                 left_withdrawn,
-                Ratio::new(swap.outputs[0].value.0, total_rights),
+                swap.outputs[0].value.0,
+                total_rights,
             ))
             .min(MAX_COINVAL);
         }
@@ -250,7 +252,8 @@ fn get_swap_transactions<C: ContentAddrStore>(state: &UnsealedState<C>) -> Vec<T
             (!tx.outputs.is_empty()).then_some(())?; // ensure not empty
             state.coins.get_coin(tx.output_coinid(0))?; // ensure that first output is unspent
             let pool_key = pool_key_from_data(&tx.data)?; // ensure that data contains a pool key
-            state.pools.get(&pool_key)?; // ensure that pool key points to a valid pool
+            let pool = state.pools.get(&pool_key)?; // ensure that pool key points to a valid pool
+            (pool.lefts > 0 && pool.rights > 0).then_some(())?; // a pool with an empty side cannot quote a price
             (tx.outputs[0].denom == pool_key.left() || tx.outputs[0].denom == pool_key.right())
                 .then_some(())?; // ensure that the first output is either left or right
             Some(tx)
@@ -314,7 +317,7 @@ fn process_deposits_for_single_pool<C: ContentAddrStore>(
             .saturating_mul(deposit.outputs[1].value.0.sqrt());
         deposit.outputs[0].denom = pool.liq_token_denom();
         deposit.outputs[0].value =
-            multiply_frac(total_liqs, Ratio::new(my_mtsqrt, total_mtsqrt)).into();
+            multiply_ratio(total_liqs, my_mtsqrt, total_mtsqrt).into();
         log::debug!(
             "added {} total liquidity out of {}!",
             deposit.outputs[0].value,
@@ -356,6 +359,10 @@ fn get_deposit_transactions<C: ContentAddrStore>(state: &UnsealedState<C>) -> Ve
                 && state.coins.get_coin(tx.output_coinid(1)).is_some())
             .then_some(())?;
             let pool_key = pool_key_from_data(&tx.data)?;
+            if let Some(pool) = state.pools.get(&pool_key) {
+                // a live pool with an empty side has no price to deposit at
+                (pool.liqs == 0 || (pool.lefts > 0 && pool.rights > 0)).then_some(())?;
+            }
             (tx.outputs[0].denom == pool_key.left() && tx.outputs[1].denom == pool_key.right())
                 .then_some(tx)
         })
@@ -388,6 +395,10 @@ fn process_withdrawals_for_single_pool<C: ContentAddrStore>(
         .fold(0u128, |a, b| a.saturating_add(b));
     // get the state
     let mut pool_state = state.pools.get(pool).unwrap();
+    if pool_state.liqs == 0 || total_liqs > pool_state.liqs {
+        // nothing can be redeemed (PoolState::withdraw would panic): leave the requests unsettled
+        return;
+    }
     let (total_left, total_write) = pool_state.withdraw(total_liqs);
     state.pools.insert(*pool, pool_state);
     // divvy up the lefts and rights
@@ -398,10 +409,10 @@ fn process_withdrawals_for_single_pool<C: ContentAddrStore>(
         let my_liqs = deposit.outputs[0].value.0;
         deposit.outputs[0].denom = pool.left();
         deposit.outputs[0].value =
-            multiply_frac(total_left, Ratio::new(my_liqs, total_liqs)).into();
+            multiply_ratio(total_left, my_liqs, total_liqs).into();
         let synth = CoinData {
             denom: pool.right(),
-            value: multiply_frac(total_write, Ratio::new(my_liqs, total_liqs)).into(),
+            value: multiply_ratio(total_write, my_liqs, total_liqs).into(),
             covhash: deposit.outputs[0].covhash,
             additional_data: deposit.outputs[0].additional_data.clone(),
         };
@@ -524,6 +535,16 @@ fn process_pegging<C: ContentAddrStore>(mut state: UnsealedState<C>) -> Unsealed
     // return the state now
     assert!(state.pools.val_iter().count() >= 2);
     state
+}
+
+/// `x * num / den` rounded down; zero when the denominator is zero (nothing was requested on that side),
+/// where `Ratio::new` would panic.
+fn multiply_ratio(x: u128, num: u128, den: u128) -> u128 {
+    if den == 0 {
+        0
+    } else {
+        multiply_frac(x, Ratio::new(num, den))
+    }
 }
 
 fn multiply_frac(x: u128, frac: Ratio<u128>) -> u128 {
